@@ -276,6 +276,12 @@ def run(ctx: Ctx) -> None:
     from . import c02 as _c02
     run_shared(ctx, _c02.run, {"R2.5": ("R1.11", "every keyword of the lexer is one the parser knows (or a reasoned expression / unsupported-specifier keyword): an identifier is not turned into a token no declaration form accepts")})
 
+    # ---------------------------------------------------------------- R1.12
+    # "with the same ... types": a template argument that is a type-id is reported as a type, not as raw tokens.  Which
+    # arguments get the trial parse as a type is C02's R2.2 (the guard evaluated for every first token of a type-id, the
+    # whole-argument condition), evaluated here under this property's id.
+    run_shared(ctx, _c02.run, {"R2.2": ("R1.12", "template arguments that are type-ids are tried as types (trial-parse guard per first token, whole-argument condition)")})
+
     # ---------------------------------------------------------------- R1.9
     ctx.rule("R1.9", "parsed information is not dropped: no value-bearing local dies unread, every parameter of a parsing method is used", minimum=150)
     from ..cfg import node_defs
